@@ -126,6 +126,7 @@ Section Lint.
   (** * lint reports every malformed line once, in file order *)
   Theorem lint_reports_all : forall (w : world) (file data : bytes) (silent : bool),
     file <> [] ->
+    file <> dev_null ->
     lookup file (w_fs w) = Some (FFile data) ->
     lookup file (w_read_fault w) = None ->
     w_sink w = None ->
@@ -136,7 +137,7 @@ Section Lint.
                            then b "No errors found" ++ [c_lf] else []);
          out_status := Ok |}.
   Proof.
-    intros w file data silent Hne Hfs Hrf Hsink Hr.
+    intros w file data silent Hne Hnd Hfs Hrf Hsink Hr.
     assert (Hopen : open_file w file = Some (OData data NoFault))
       by (apply open_plain; repeat split; assumption).
     unfold run_lint. destruct file as [|c file']; [contradiction|].
@@ -153,6 +154,7 @@ Section Lint.
   (** a line too long for the scanner: the errors before it are still printed, status "token too long" *)
   Theorem lint_unreadable : forall (w : world) (file data : bytes) (silent : bool),
     file <> [] ->
+    file <> dev_null ->
     lookup file (w_fs w) = Some (FFile data) ->
     lookup file (w_read_fault w) = None ->
     w_sink w = None ->
@@ -161,7 +163,7 @@ Section Lint.
       {| out_stdout := concat (map (fun e => perr_message e ++ [c_lf]) (errors_of NM (events NM data)));
          out_status := Failed (EScan true) |}.
   Proof.
-    intros w file data silent Hne Hfs Hrf Hsink Hr.
+    intros w file data silent Hne Hnd Hfs Hrf Hsink Hr.
     assert (Hopen : open_file w file = Some (OData data NoFault))
       by (apply open_plain; repeat split; assumption).
     unfold run_lint. destruct file as [|c file']; [contradiction|].
@@ -203,6 +205,7 @@ Section Lint.
 
   Theorem lint_ok_iff_clean : forall (w : world) (file data : bytes) (silent : bool),
     file <> [] ->
+    file <> dev_null ->
     lookup file (w_fs w) = Some (FFile data) ->
     lookup file (w_read_fault w) = None ->
     w_sink w = None ->
@@ -219,8 +222,8 @@ Section Lint.
         out_stdout (run_lint NM w file silent)
         = concat (map (fun e => perr_message e ++ [c_lf]) (errors_of NM (events NM data)))).
   Proof.
-    intros w file data silent Hne Hfs Hrf Hsink Hr.
-    rewrite (lint_reports_all w file data silent Hne Hfs Hrf Hsink Hr). cbn [out_stdout].
+    intros w file data silent Hne Hnd Hfs Hrf Hsink Hr.
+    rewrite (lint_reports_all w file data silent Hne Hnd Hfs Hrf Hsink Hr). cbn [out_stdout].
     split; [apply lint_stdout_lines|]. split; [apply lint_lines_ok_iff|]. split.
     - split.
       + intros H. destruct (errors_of NM (events NM data)) as [|e es] eqn:Ee.
